@@ -248,6 +248,11 @@ def closure_apply(args):
             for pl in reversed(plugs):
                 p += universe.term_bytes(pl)
             p += bytes([29, 0, 26, len(ids)] + list(ids))
+        elif kind == 'weaken':
+            # from |- T derive |- A -> T : Prop1 at [phi0 := T, phi1 := A], then modus ponens with T
+            t = rm.parse(a[1])
+            g = universe.term_bytes(t) + bytes([30])
+            p = universe.term_bytes(a[2]) + universe.term_bytes(t) + bytes([12, 26, 2, 0, 1, 29, 0, 21])
         elif kind == 'axiom':
             g = b''
             p = bytes([a[1]])
@@ -284,7 +289,8 @@ def derived_seed():
     return prefix
 
 
-def closure(chk, height: int, max_nodes: int, npool: int, max_apps: int, agg, seed_theorems=(), pool=None, unary_only=False, tag='closure'):
+def closure(chk, height: int, max_nodes: int, npool: int, max_apps: int, agg, seed_theorems=(), pool=None, unary_only=False, tag='closure',
+            weaken=()):
     if pool is None:
         pool = universe.META_POOL[:npool]
         pool = pool + tuple(t for t in universe.META_POOL[-3:] if t not in pool)
@@ -329,6 +335,8 @@ def closure(chk, height: int, max_nodes: int, npool: int, max_apps: int, agg, se
             for X in (0, 1):
                 for pl in pool:
                     apps.append(('subst', t, X, pl))
+            for ant in weaken:
+                apps.append(('weaken', t, ant))
             mvs = sorted({m[1] for m in refpat.metavars(rm.parse(t))})
             for m in mvs:
                 for pl in pool:
@@ -483,6 +491,14 @@ def main(argv=None) -> int:
                      seed_theorems, pool=spool, unary_only=True, tag='selfplug')
     for t, w in known3.items():
         theorems.setdefault(t, w)
+    # a third one: a theorem put behind an antecedent that mentions the same metavariable WITHOUT the constraint the theorem's
+    # own occurrences carry (one metavariable number, two constraint sets in one proved term), then instantiated
+    wpool = (rm.evar(0), rm.svar(0), rm.mv(0, E=(0,)), rm.mv(0, S=(0,)))
+    known4 = closure(chk, 4 if not thorough else 5, 9 if not thorough else 10, 0, 1500000 if not thorough else 6000000, agg,
+                     seed_theorems, pool=wpool, unary_only=True, tag='weaken', weaken=(rm.imp(rm.mv(0), rm.mv(0)), rm.mv(0)))
+    for t, w in known4.items():
+        theorems.setdefault(t, w)
+    known3 = dict(known4, **known3)
     known2 = dict(known3, **known2)
     known = dict(known2, **known)
     agg['distinct_theorems'] = len(theorems)
